@@ -31,22 +31,38 @@ type Answer struct {
 
 type Solver struct {
 	Name string
-	Args func(file string, timeoutS int) []string
+	Args func(file string, timeoutS int, seed int) []string
 }
 
 var Solvers = []Solver{
-	{"z3-new", func(f string, t int) []string { return []string{"z3-new", "-smt2", fmt.Sprintf("-T:%d", t), f} }},
-	{"z3", func(f string, t int) []string { return []string{"z3", "-smt2", fmt.Sprintf("-T:%d", t), f} }},
-	{"cvc5", func(f string, t int) []string {
-		return []string{"cvc5", "--lang=smt2", fmt.Sprintf("--tlimit=%d", t*1000), f}
+	{"z3-new", func(f string, t int, seed int) []string {
+		a := []string{"z3-new", "-smt2", fmt.Sprintf("-T:%d", t)}
+		if seed != 0 {
+			a = append(a, fmt.Sprintf("smt.random_seed=%d", seed), fmt.Sprintf("sat.random_seed=%d", seed))
+		}
+		return append(a, f)
+	}},
+	{"z3", func(f string, t int, seed int) []string {
+		a := []string{"z3", "-smt2", fmt.Sprintf("-T:%d", t)}
+		if seed != 0 {
+			a = append(a, fmt.Sprintf("smt.random_seed=%d", seed), fmt.Sprintf("sat.random_seed=%d", seed))
+		}
+		return append(a, f)
+	}},
+	{"cvc5", func(f string, t int, seed int) []string {
+		a := []string{"cvc5", "--lang=smt2", fmt.Sprintf("--tlimit=%d", t*1000)}
+		if seed != 0 {
+			a = append(a, fmt.Sprintf("--seed=%d", seed))
+		}
+		return append(a, f)
 	}},
 }
 
 const header = "(set-option :produce-models true)\n(set-logic ALL)\n"
 
-func runOne(ctx context.Context, s Solver, file string, timeoutS int) (Status, string, float64) {
+func runOne(ctx context.Context, s Solver, file string, timeoutS int, seed int) (Status, string, float64) {
 	t0 := time.Now()
-	args := s.Args(file, timeoutS)
+	args := s.Args(file, timeoutS, seed)
 	cctx, cancel := context.WithTimeout(ctx, time.Duration(timeoutS+2)*time.Second)
 	defer cancel()
 	cmd := exec.CommandContext(cctx, args[0], args[1:]...)
@@ -58,7 +74,7 @@ func runOne(ctx context.Context, s Solver, file string, timeoutS int) (Status, s
 	first := ""
 	for _, ln := range strings.Split(out.String(), "\n") {
 		ln = strings.TrimSpace(ln)
-		if ln == "" {
+		if ln == "" || ln == "unsupported" || ln == "success" {
 			continue
 		}
 		first = ln
@@ -80,9 +96,7 @@ func runOne(ctx context.Context, s Solver, file string, timeoutS int) (Status, s
 func Check(dir, name, script string, timeoutS int, wantModel bool, seed int) Answer {
 	file := filepath.Join(dir, sanitize(name)+".smt2")
 	body := header
-	if seed != 0 {
-		body += fmt.Sprintf("(set-option :random-seed %d)\n", seed%1000000)
-	}
+	seed = seed % 1000000
 	body += script
 	if err := os.WriteFile(file, []byte(body), 0o644); err != nil {
 		return Answer{Status: Unknown, Detail: err.Error()}
@@ -98,7 +112,7 @@ func Check(dir, name, script string, timeoutS int, wantModel bool, seed int) Ans
 	var el float64
 	detail := ""
 	if !hardFP {
-		st, out, el = runOne(context.Background(), Solvers[0], file, quickT)
+		st, out, el = runOne(context.Background(), Solvers[0], file, quickT, seed)
 		detail = fmt.Sprintf("%s:%s(%.2fs)", Solvers[0].Name, st, el)
 	}
 	ans := Answer{Status: st, Solver: Solvers[0].Name}
@@ -116,7 +130,7 @@ func Check(dir, name, script string, timeoutS int, wantModel bool, seed int) Ans
 			wg.Add(1)
 			go func(s Solver) {
 				defer wg.Done()
-				st, out, el := runOne(ctx, s, file, timeoutS)
+				st, out, el := runOne(ctx, s, file, timeoutS, seed)
 				ch <- r{s, st, out, el}
 			}(s)
 		}
@@ -143,7 +157,7 @@ func Check(dir, name, script string, timeoutS int, wantModel bool, seed int) Ans
 		os.WriteFile(mfile, []byte(body+"(get-model)\n"), 0o644)
 		for _, s := range Solvers {
 			if s.Name == ans.Solver {
-				_, mout, _ := runOne(context.Background(), s, mfile, timeoutS)
+				_, mout, _ := runOne(context.Background(), s, mfile, timeoutS, seed)
 				ans.Model = mout
 			}
 		}
